@@ -80,7 +80,11 @@ type Conn struct {
 	raw       []byte
 
 	lateWrites int // Write calls after Close
-	ReadCalls  int
+	// ErrWithData makes the Read that returns the last queued fragment also
+	// return the queued error (n > 0 together with io.EOF / a read error), which
+	// the io.Reader contract allows and e.g. crypto/tls does.
+	ErrWithData bool
+	ReadCalls   int
 	ReadBytes  int
 	closedCh   chan struct{}
 	closeOnce  sync.Once
@@ -124,6 +128,19 @@ func Split(b []byte, cuts []int) [][]byte {
 	return out
 }
 
+// FeedWithErr queues a last fragment and the error atomically; with
+// ErrWithData the Read that returns the fragment also returns the error.
+func (c *Conn) FeedWithErr(frag []byte, err error) {
+	c.mu.Lock()
+	c.ErrWithData = true
+	if len(frag) > 0 {
+		c.in = append(c.in, append([]byte(nil), frag...))
+	}
+	c.inErr = err
+	c.mu.Unlock()
+	c.cond.Broadcast()
+}
+
 // FeedEOF makes reads return io.EOF once the queue is drained.
 func (c *Conn) FeedEOF() { c.FeedErr(io.EOF) }
 
@@ -155,6 +172,9 @@ func (c *Conn) Read(p []byte) (int, error) {
 			c.in[0] = c.in[0][n:]
 		}
 		c.ReadBytes += n
+		if c.ErrWithData && len(c.in) == 0 && c.inErr != nil {
+			return n, c.inErr
+		}
 		return n, nil
 	}
 	return 0, c.inErr
